@@ -184,6 +184,9 @@ func (m *Machine) ActSaveRetention(t *rapid.T) {
 				if !j.Terminal {
 					m.fail("C12", "a save removed job %s of pipeline %s which is waiting or running", label(j.ID), p)
 					m.fail("C03", "accepted job %s of pipeline %s was removed by a save while it was waiting or running: it neither starts nor is reported canceled", label(j.ID), p)
+					if js := s0.Jobs[j.ID]; js != nil && js.Start == nil {
+						m.fail("C07", "job %s of pipeline %s was removed by a save while it waited (for its start delay or for a slot): it will never start although nobody canceled or replaced it", label(j.ID), p)
+					}
 				}
 				if def.RetentionCount == 0 && def.RetentionPeriod == 0 {
 					m.fail("C12", "a save removed job %s of pipeline %s which has no retention settings", label(j.ID), p)
